@@ -40,6 +40,7 @@ type VerifConnState struct {
 	RemotePort uint16
 	Inbound    bool
 	Status     string
+	AgeSeconds int64 // seconds since the entry was last seen
 }
 
 // VerifConnStates returns a copy of all connection state entries.
@@ -58,6 +59,7 @@ func (r *Router) VerifConnStates() []VerifConnState {
 			RemotePort: key.remotePort,
 			Inbound:    entry.inbound,
 			Status:     connStatus(entry.status.Load()).Name(),
+			AgeSeconds: time.Now().Unix() - entry.lastSeen.Load(),
 		})
 	}
 	return out
@@ -73,4 +75,39 @@ func (h *HelloPingHandler) VerifExpire(remote netip.Addr) {
 	if st := h.active[remote]; st != nil {
 		st.expires = time.Now().Add(-time.Second)
 	}
+}
+
+// VerifAge makes every connection state entry and every cool-down stamp of the
+// error ping handler older by d, as if d had passed without any activity.
+// Verification hook: only compiled with the "verif" build tag.
+func (r *Router) VerifAge(d time.Duration) {
+	secs := int64(d / time.Second)
+
+	r.connStatesLock.Lock()
+	for _, entry := range r.connStates {
+		entry.firstSeen -= secs
+		entry.lastSeen.Add(-secs)
+	}
+	r.connStatesLock.Unlock()
+
+	h := r.ErrorPing
+	h.routerStatesLock.Lock()
+	defer h.routerStatesLock.Unlock()
+	for _, state := range h.routerStates {
+		state.Lock()
+		for code, t := range state.sent {
+			state.sent[code] = t.Add(-d)
+		}
+		for code, t := range state.rcvd {
+			state.rcvd[code] = t.Add(-d)
+		}
+		state.lastActivity = state.lastActivity.Add(-d)
+		state.Unlock()
+	}
+}
+
+// VerifCleanConnStates runs one round of the connection state cleaner.
+// Verification hook: only compiled with the "verif" build tag.
+func (r *Router) VerifCleanConnStates() {
+	r.cleanConnStates()
 }
